@@ -250,19 +250,29 @@ def nfa_repetition(N: NFA, id_generator: IdentifierGenerator = IdentifierGenerat
     return NFA(Q, Sigma, delta, q0, F, N.epsilon)
 
 
+def nfa_common_epsilon(N1: NFA, N2: NFA) -> Symbol:
+    """Returns an epsilon symbol for a combination of N1 and N2: the epsilon of N1, unless it is an input symbol of N2."""
+    Sigma = N1.Sigma | N2.Sigma
+    for epsilon in [N1.epsilon, N2.epsilon, Symbol(''), Symbol('ε'), Symbol('_')]:
+        if epsilon not in Sigma:
+            return epsilon
+    raise RuntimeError('nfa_common_epsilon: could not find an epsilon symbol')
+
+
 def nfa_union(N1: NFA, N2: NFA, id_generator: IdentifierGenerator = IdentifierGenerator()) -> NFA:
     assert N1.Q.isdisjoint(N2.Q)
     Sigma = N1.Sigma | N2.Sigma
+    epsilon = nfa_common_epsilon(N1, N2)
     q0 = State(id_generator.generate('q'))
     while q0 in N1.Q or q0 in N2.Q:
         q0 = State(id_generator.generate('q'))
     Q = N1.Q | N2.Q | {q0}
     F = N1.F | N2.F
     delta = defaultdict(lambda: set([]))
-    delta.update({key: set(Q1) for key, Q1 in N1.delta.items()})
-    delta.update({(q, N1.epsilon if a == N2.epsilon else a): set(Q1) for (q, a), Q1 in N2.delta.items()})
-    delta[q0, N1.epsilon] = {N1.q0, N2.q0}
-    return NFA(Q, Sigma, delta, q0, F, N1.epsilon)
+    delta.update({(q, epsilon if a == N1.epsilon else a): set(Q1) for (q, a), Q1 in N1.delta.items()})
+    delta.update({(q, epsilon if a == N2.epsilon else a): set(Q1) for (q, a), Q1 in N2.delta.items()})
+    delta[q0, epsilon] = {N1.q0, N2.q0}
+    return NFA(Q, Sigma, delta, q0, F, epsilon)
 
 
 def nfa_concatenation(N1: NFA, N2: NFA) -> NFA:
@@ -271,12 +281,13 @@ def nfa_concatenation(N1: NFA, N2: NFA) -> NFA:
     q0 = N1.q0
     Q = N1.Q | N2.Q | {q0}
     F = N2.F
+    epsilon = nfa_common_epsilon(N1, N2)
     delta = defaultdict(lambda: set([]))
-    delta.update({key: set(Q1) for key, Q1 in N1.delta.items()})
-    delta.update({(q, N1.epsilon if a == N2.epsilon else a): set(Q1) for (q, a), Q1 in N2.delta.items()})
+    delta.update({(q, epsilon if a == N1.epsilon else a): set(Q1) for (q, a), Q1 in N1.delta.items()})
+    delta.update({(q, epsilon if a == N2.epsilon else a): set(Q1) for (q, a), Q1 in N2.delta.items()})
     for q in N1.F:
-        delta[q, N1.epsilon] |= {N2.q0}
-    return NFA(Q, Sigma, delta, q0, F, N1.epsilon)
+        delta[q, epsilon] |= {N2.q0}
+    return NFA(Q, Sigma, delta, q0, F, epsilon)
 
 
 def print_nfa(N: NFA) -> str:
